@@ -77,6 +77,11 @@ def analyse(obs: Obs, prog):
             cnt = env.get("self.key_counter")
             okc = cnt == ("bin", "+", sattr("key_counter"), C(1))
             obs.add({"C04"}, "KEY-COUNTER", inst + "/counter", okc, derived=cnt, expected="key_counter incremented by 1 after each fresh key", where=w)
+            # the handler's own key is a PARENT: it is only ever folded, never replaced.  Chaining it (self.key = fold_in(self.key, j)) makes site j+1's key
+            # fold_in(k_j, j+1) - exactly the key a vmap / repeat / scan at site j derives for its element j+1 (split(k, n)[i] == fold_in(k, i))
+            newkey = env.get("self.key")
+            obs.add({"C04"}, "KEY-LINEAR", inst + "/parent-key", newkey in (None, sattr("key")), construct="the handler's key after a trace site", derived=show(newkey)[:120] if newkey is not None else "unchanged",
+                    expected="self.key is never reassigned: every site key is fold_in(<the same parent key>, counter)", where=w)
             init = ev.eval_fn(H.methods["__init__"], H.module, H)
             k0 = init.env.get("self.key")
             c0 = init.env.get("self.key_counter")
